@@ -56,8 +56,8 @@ impl Monitor for C16 {
     }
     fn cases(&self, tier: Tier) -> u64 {
         match tier {
-            Tier::Quick => 20_000,
-            Tier::Thorough => 600_000,
+            Tier::Quick => 150_000,
+            Tier::Thorough => 2_000_000,
         }
     }
     fn required_counters(&self) -> Vec<&'static str> {
